@@ -37,8 +37,20 @@ def one_case(ctx, rng, k, model):
     bs_arg = tuple(-1 if free == j + 1 else b for j, b in enumerate(bs))
     try:
         if route == 'numpy':
-            conv.numpy_to_sgz(gen.noncontiguous(arr, k // 16) if (k // 8) % 2 else arr, out, q, bs_arg, style=k // 8)
-            src = arr
+            if k % 16 == 3:
+                # extents that are exact multiples of the block shape (no plane set needs padding) and a zero-stride
+                # broadcast view as input
+                reps = [int(rng.integers(1, 4)) for _ in range(3)]
+                while reps[0] * bs[0] * reps[1] * bs[1] * reps[2] * bs[2] > 4 * ctx.n(60_000, 250_000) and max(reps) > 1:
+                    reps[int(np.argmax(reps))] -= 1
+                n = tuple(r * b for r, b in zip(reps, bs))
+                arr, src = gen.broadcast_view(gen.cube(rng, n), k // 16)
+                desc.update(n=n, input='broadcast view, block-aligned extents')
+                ctx.stats['numpy_broadcast_aligned'] += 1
+                conv.numpy_to_sgz(arr, out, q, bs_arg, style=k // 8)
+            else:
+                conv.numpy_to_sgz(gen.noncontiguous(arr, k // 16) if (k // 8) % 2 else arr, out, q, bs_arg, style=k // 8)
+                src = arr
         else:
             fmt = [5, 1][(k // 8) % 2]
             ext = [0, 0, 1, 2][(k // 16) % 4]
